@@ -2866,9 +2866,14 @@ loop:
 
 func (c *linkerContext) maybeForbidArbitraryModuleNamespaceIdentifier(kind string, sourceIndex uint32, loc logger.Loc, alias string) {
 	if !js_ast.IsIdentifier(alias) {
+		// Note: This is called from code that runs in parallel for different
+		// files, and "sourceIndex" may refer to another file than the one being
+		// processed. So this must not use "file.LineColumnTracker()", which
+		// lazily initializes state that's shared between all users of the file.
 		file := &c.graph.Files[sourceIndex]
+		tracker := logger.MakeLineColumnTracker(&file.InputFile.Source)
 		where := config.PrettyPrintTargetEnvironment(c.options.OriginalTargetEnv, c.options.UnsupportedJSFeatureOverridesMask)
-		c.log.AddError(file.LineColumnTracker(), file.InputFile.Source.RangeOfString(loc), fmt.Sprintf(
+		c.log.AddError(&tracker, file.InputFile.Source.RangeOfString(loc), fmt.Sprintf(
 			"Using the string %q as an %s name is not supported in %s", alias, kind, where))
 	}
 }
